@@ -162,6 +162,47 @@ def fill_helpers(ctx, crate):
             ctx.report(clause, fn.split("::")[-1] + ":contained-cells", okp, "%d pushes of contained cells with flag %s%s" % (len(ps), str(cellflag).lower(), extra), at=b.span, kind="N")
 
 
+def containment_test(ctx, crate):
+    """N: `is_in(low, high)` — the containment test of the merge helpers — is
+    low.depth <= high.depth && low.hash == high.hash >> 2 (high.depth - low.depth), read at every
+    (depth, hash) pair of depths 0..=2 (63 x 63 cases), and it reads nothing but the depth and the
+    hash of the two cells: raw values are relative to each BMOC's own maximal depth and cannot be
+    compared across operands."""
+    from rules.common import feval
+    clause = "containment-test"
+    fn = M + "is_in"
+    b = ctx.anchor(crate, fn, clause)
+    if b is None: return
+    e = Engine(crate); r = e.run(fn); ctx.functions |= e.visited_fns
+    di = crate.field_index("nested::bmoc::Cell", "depth"); hi = crate.field_index("nested::bmoc::Cell", "hash")
+    pn = b.param_names()
+    L_, H_ = ('deref', ('p', pn[0])), ('deref', ('p', pn[1]))
+    flds = set()
+    seen = set()
+    def scan(t, depth=0):
+        if t in seen or depth > 20 or not isinstance(t, tuple): return
+        seen.add(t)
+        if t[0] == 'fld' and t[1] in (L_, H_): flds.add(t[2]); return
+        if t[0] == 'phi':
+            for o in (e.phi_gate.get(t) or e.phi_ops.get(t, ())): scan(o, depth + 1)
+            return
+        for x in t:
+            if isinstance(x, tuple): scan(x, depth + 1)
+    if r.returns: scan(r.ret)
+    only = flds <= {di, hi}
+    bad = []
+    cells = [(d, h) for d in range(3) for h in range(4 ** d if d else 1)] + [(d, 4 ** d + 1) for d in range(3)]
+    if r.returns and only:
+        for ld, lh in cells:
+            for hd, hh in cells:
+                v = feval(r.ret, {('fld', L_, di): ld, ('fld', L_, hi): lh, ('fld', H_, di): hd, ('fld', H_, hi): hh}, e)
+                want = ld <= hd and lh == (hh >> (2 * (hd - ld)))
+                if v is None or bool(v) != want: bad.append(((ld, lh), (hd, hh), v, want))
+    ok = r.returns and only and not bad
+    ctx.report(clause, "is_in:depth-and-hash-prefix", ok, "%d pairs; reads only depth and hash" % (len(cells) ** 2) if ok else
+               ("is_in reads other fields of the cells (field indices %s): raw values of different BMOCs are not comparable" % sorted(flds) if not only else "is_in(%s, %s) = %s, expected %s" % bad[0]), at=b.span, kind="N")
+
+
 def run(ctx):
     crate = ctx.crate("rel")
     n = 0
@@ -169,5 +210,6 @@ def run(ctx):
         if operator_table(ctx, crate, op) is not None: n += 1
     ctx.floor("operators-summarised", n, 3)
     fill_helpers(ctx, crate)
+    containment_test(ctx, crate)
     ctx.not_decided("that the site rules compose to the documented cell-to-state map on whole BMOCs for all pairs of trees (quantifies over tree shapes)")
     ctx.extra["cases_per_operator"] = 72
